@@ -333,4 +333,21 @@ def Net.own (h : Handover) (n : Net) (sid : String) (ev : Own) : Net :=
           | .remove => { e with s := e.s.detached }
         else e }
 
+/-- a stream handler that deregisters with the remover of ITS OWN registration (`remove := store.AddStreamCallback(…)`,
+`defer remove()`; reports/cb_fix_2.diff): when it ends, whatever another stream registered under the same id stays.
+Registering still replaces (and tells) the holder of the id. -/
+def Net.ownR (h : Handover) (n : Net) (sid : String) (ev : Own) : Net :=
+  match n.streams.find? (·.sid == sid) with
+  | none => n
+  | some me =>
+    let after := ((Sys.step h ⟨n.store, me.s⟩ ev.toEv)).s
+    let eff := effectOf n.store ev me.s after
+    { n with streams := n.streams.map fun e =>
+        if e.sid == sid then { e with s := after }
+        else if e.addr == me.addr then
+          match eff with
+          | .add => { e with s := e.s.replaced }
+          | _ => e
+        else e }
+
 end Drand.Beacon.Stream
